@@ -47,6 +47,31 @@ Theorem C09_refuse_when_conflicted :
 Proof. exact refuse_when_conflicted_partial. Qed.
 Print Assumptions C09_refuse_when_conflicted.
 
+(* "With conflicts disallowed ... the tree stays clean", for the configuration variable: while
+   stgit.push.allow-conflicts is false, no stg command that was not given --conflicts=allow
+   leaves unmerged entries behind, whatever it pushes (pop of non-top patches, float, sink,
+   commit, edit, squash, pick, rebase, reset of selected patches, ...); stg commands never
+   change the setting, so this holds for whole sessions *)
+Theorem C09_config_disallow_keeps_index_merged :
+  forall lower_s w c,
+    w_apc w = false -> w_unmerged w = false -> is_stg c = true -> no_explicit_allow c = true ->
+    w_unmerged (fst (step lower_s w c)) = false.
+Proof. exact config_disallow_keeps_index_merged. Qed.
+Print Assumptions C09_config_disallow_keeps_index_merged.
+
+Theorem C09_stg_keeps_config :
+  forall lower_s w c, is_stg c = true -> w_apc (fst (step lower_s w c)) = w_apc w.
+Proof. exact stg_keeps_config. Qed.
+Print Assumptions C09_stg_keeps_config.
+
+Theorem C09_config_disallow_session :
+  forall lower_s cs w,
+    forallb (fun c => is_stg c && no_explicit_allow c) cs = true ->
+    w_apc w = false -> w_unmerged w = false ->
+    w_unmerged (run lower_s w cs) = false.
+Proof. exact config_disallow_session. Qed.
+Print Assumptions C09_config_disallow_session.
+
 (* undo without --hard is refused while the index is unmerged; refs untouched *)
 Theorem C09_undo_needs_hard :
   forall w n,
@@ -85,3 +110,9 @@ Theorem C09_transaction_options_in_source :
      (cmd_repair, exp_repair); (cmd_edit, exp_edit); (cmd_rebase, exp_rebase); (cmd_squash, exp_squash)] = true.
 Proof. vm_compute. reflexivity. Qed.
 Print Assumptions C09_transaction_options_in_source.
+
+(* the same for `stg pick`, whose transaction is built in the helper pick_picks *)
+Theorem C09_transaction_options_in_source_pick :
+  cmd_matches_in "pick_picks" cmd_pick exp_pick = true.
+Proof. vm_compute. reflexivity. Qed.
+Print Assumptions C09_transaction_options_in_source_pick.
